@@ -264,18 +264,29 @@ def check_C02(tier):
         results = pool.map(run_one, jobs, chunksize=max(1, len(jobs) // (core.NCPU * 8)))
     chk.cov["evaluations"] += len(results)
     chk.cov["distinct_nontrivial"] += len([m for m in models if max(len(n[2]) if n[0] != "EEMSRead" else 0 for n in m["nodes"]) >= 2])
-    records = [r[0] for r in results]
-    verdicts = validate_models(chk, records)
+    # one validation record per model: the graph is evaluated once by TLC, every run (order) of it is compared
+    groups = {}
     for (rec, trace, src, err, wrote), job in zip(results, jobs):
-        v, k = verdicts[rec["id"]]
+        groups.setdefault(json.dumps([rec["table"], rec["nodes"]]), []).append((rec, src, err, wrote, job))
+    records, members = [], {}
+    for gi, (key, runs) in enumerate(sorted(groups.items())):
+        records.append({"id": gi, "table": runs[0][0]["table"], "nodes": runs[0][0]["nodes"], "obs": [r[0]["obs"] for r in runs]})
+        members[gi] = runs
+    verdicts = validate_models(chk, records)
+    chk.cov["traces_validated_against_impl"] += len(results) - len(records)   # every run is one validated observation
+    for gi, runs in members.items():
+        v, k, ri = verdicts[gi]
         if v != "ok":
+            rec, src, err, wrote, job = runs[ri - 1]
             node = rec["nodes"][k - 1]
             chk.finding("C02:model:%s:%s" % (v, node[0]), "result of %s (node %d) differs from the evaluation of the graph: %s%s" % (node[0], k, v, " (run failed: %s)" % err if err else ""),
                         {"source": src, "order": job[2], "node": node, "observed": rec["obs"][k - 1], "run_error": err})
-        elif "out.csv" not in wrote or "shown.txt" not in wrote:
-            chk.finding("C02:model:OutputMissing", "the model ran but its writers left no output", {"source": src, "files": wrote})
-        elif len(chk.cov["samples"]) < 3 and rec["id"] % 173 == 9:
-            chk.sample({"source": src, "order": job[2], "observed_results": rec["obs"]})
+            continue
+        for rec, src, err, wrote, job in runs:
+            if "out.csv" not in wrote or "shown.txt" not in wrote:
+                chk.finding("C02:model:OutputMissing", "the model ran but its writers left no output", {"source": src, "files": wrote})
+            elif len(chk.cov["samples"]) < 3 and rec["id"] % 173 == 9:
+                chk.sample({"source": src, "order": job[2], "observed_results": rec["obs"]})
     # the same runs, seen by the engine specification (real commands instead of probes)
     traces = [r[1] for r in results]
     ev = engine.validate_traces(chk, "C02", traces)
@@ -329,7 +340,7 @@ def validate_models(chk, records):
         if tr.rc != 0 or tr.error:
             core.tlc_fail(tr, "EEMSModelTrace")
         for v in core.parse_printt(tr.out, "VERDICT"):
-            verdicts[v[1]] = (v[2], v[3])
+            verdicts[v[1]] = (v[2], v[3], v[4])
         tot.states += tr.states
         tot.distinct += tr.distinct
         tot.wall = max(tot.wall, tr.wall)
